@@ -417,7 +417,7 @@ Theorem make_diff_tags_gen c o s left right in_tail : tinv s -> plain left -> pl
   exists s' ps, make_diff_tags c o s left right in_tail = FOk (s', encp ps, match ps with [] => false | _ => true end) /\
      tinv s' /\ sext s s' /\ ctr s <= ctr s' /\
      Forall (piece_ok s') ps /\ pt1 ps = norm_if c left /\ pt2 ps = norm_if c right /\
-     (c_replace c = false -> s' = s).
+     (c_replace c = false -> s' = s) /\ ctr s' <= ctr s + N.of_nat (length (norm_if c right)).
 Proof.
   intros H Hl Hrt Hroom. unfold make_diff_tags.
   destruct (text_diff_gen c o s left right H Hl Hrt) as (ds & E & J1 & J2 & F & Z). rewrite E. cbn [fbind].
@@ -429,7 +429,22 @@ Proof.
   split. { destruct ds, ps; cbn [length] in L; try discriminate; reflexivity. }
   split; [exact H2|]. split; [exact X2|]. split; [exact M2|]. split; [exact P2|].
   split; [congruence|]. split; [congruence|].
+  split; [|lia].
   intros Hr. exact (mdt_loop_noJR (c_fmt c) in_tail ds F (Z Hr) s [] false _ H E2).
+Qed.
+
+(* normalisation does not lengthen a text *)
+Lemma cleanup_ws_len x : forall b, (length (cleanup_ws_aux b x) <= length x)%nat.
+Proof.
+  induction x as [|ch r IH]; intros b; cbn [cleanup_ws_aux length]; [lia|].
+  destruct (is_space ch); [destruct b|]; cbn [length]; [specialize (IH true)|specialize (IH true)|specialize (IH false)]; lia.
+Qed.
+Lemma lstrip_len x : (length (lstrip x) <= length x)%nat.
+Proof. induction x as [|ch r IH]; cbn [lstrip length]; [lia|]. destruct (is_space ch); cbn [length]; lia. Qed.
+Lemma norm_if_len c x : (length (norm_if c x) <= length x)%nat.
+Proof.
+  unfold norm_if. destruct (ws_text c); [|lia]. unfold normalize_text, Str.strip, rstrip, cleanup_whitespace.
+  rewrite rev_length. etransitivity; [apply lstrip_len|]. rewrite rev_length. etransitivity; [apply lstrip_len|]. apply cleanup_ws_len.
 Qed.
 
 (* the same, said with the two readings *)
